@@ -106,9 +106,9 @@ def guaranteed (st : SpecSt) (k : Nat) (doneAtStart : List Nat) : Option Nat :=
     !st.closeStarted.contains w.1 &&
     st.issued.any (fun u => u.wid = w.1 && doneAtStart.contains u.ver) &&
     st.issued.all (fun u => u.wid ≠ w.1 || (u.svcs.contains k && u.name = w.2)) &&
-    (!st.svc || st.issued.all (fun u => u.name = w.2 || !u.svcs.contains k)) &&
-    -- no other watcher of the same name (an older, closed one) may still be around with in-flight updates
-    st.wname.all (fun w' => w'.1 = w.1 || w'.2 ≠ w.2)
+    (!st.svc || st.issued.all (fun u => u.name = w.2 || !u.svcs.contains k))
+    -- older watchers of the same name do not matter: on a correct router they are fully closed before
+    -- this one could be created, and their straggling updates are no-ops
   (st.wname.find? ok).map (·.1)
 
 def specEv (st : SpecSt) : Ev → SpecSt
@@ -125,7 +125,14 @@ def specEv (st : SpecSt) : Ev → SpecSt
     | _ => st
   | .endW t wid =>
     match st.cur.lookup t with
-    | some (.watch name _) => { st with wname := (wid, name) :: st.wname }
+    | some (.watch name _) =>
+      -- Watch must fail while a watcher of that name is registered, i.e. until its Close has returned
+      -- (under the controlled scheduler a Close that has passed watcherSet.Remove also returns in the same
+      -- macro step, so "returned" and "removed from the set" coincide at every point a Watch can run)
+      let st' := { st with wname := (wid, name) :: st.wname }
+      match st.wname.find? (fun w => w.2 = name && !st.closeRet.contains w.1) with
+      | some w => st'.fail s!"rewatch-too-early: Watch({name}) succeeded although Close of watcher {w.1} of that name had not returned"
+      | none => st'
     | _ => st
   | .endWF t =>
     match st.cur.lookup t with
@@ -139,7 +146,11 @@ def specEv (st : SpecSt) : Ev → SpecSt
     match st.cur.lookup t with
     | some (.look k _ doneAtStart) =>
       match guaranteed st k doneAtStart with
-      | some w => st.fail s!"gap: lookup of service {k} missed although live watcher {w} lists it in every description"
+      | some w =>
+        let wn := (st.wname.lookup w).getD 0
+        if st.wname.any (fun w' => w'.1 ≠ w && w'.2 = wn) then
+          st.fail s!"lost-routes-of-live-watcher: lookup of service {k} missed although live watcher {w} applied a description listing it (an older watcher of the same name removed them)"
+        else st.fail s!"gap: lookup of service {k} missed although live watcher {w} lists it in every description"
       | none => st
     | _ => st
   | .endH t tv sv mv =>
@@ -294,6 +305,14 @@ def genProgs (svc : Bool) : Progs :=
     storeSame := Generated.c11ServiceStoreSame
     svc := svc }
 
+/-- programs used for the replay: the regenerated skeletons as long as they pass the lock-discipline
+    checker (then the theorems cover them); otherwise the programs the theorems were instantiated for,
+    so that a restructured operation shows up as a correspondence break instead of being followed. -/
+def replayProgs (svc : Bool) : Progs :=
+  let g := genProgs svc
+  if g.wf then g
+  else { (if svc then serviceProgs else patternProgs) with storeSame := Generated.c11ServiceStoreSame }
+
 def replay (P : Progs) (svc : Bool) (issued : List Issued) : List Round → Nat → List Cand → Option String
   | [], _, _ => none
   | r :: rs, k, cands =>
@@ -330,11 +349,23 @@ def handleStress (mode : String) (out : List String) : String :=
     else if mode = "close" then
       match kvNat out "routedAfterClose", kvNat out "rewatchFailed", kvNat out "missAfterUpdate" with
       | some rac, some rwf, some mau =>
-        if rac > 0 then s!"VIOL resurrected: lookup routed to a target after its Close returned ({rac}) {first}"
+        let early := (kvNat out "rewatchTooEarly").getD 0
+        let lost := (kvNat out "lostRoutes").getD 0
+        if early > 0 then s!"VIOL rewatch-too-early: Watch succeeded while the closing watcher's routes were still installed ({early}) {first}"
+        else if lost > 0 then s!"VIOL lost-routes-of-live-watcher: routes installed through a live watcher disappeared ({lost}) {first}"
+        else if rac > 0 then s!"VIOL resurrected: lookup routed to a target after its Close returned ({rac}) {first}"
         else if rwf > 0 then s!"VIOL rewatch: Watch failed after Close of the only watcher of the name returned ({rwf}) {first}"
         else if mau > 0 then s!"VIOL gap: route of a live watcher not found after UpdateDesc returned ({mau}) {first}"
         else "OK nt b=stress-close"
       | _, _, _ => "BAD stress close output"
+    else if mode = "claim" then
+      match kvNat out "later", kvNat out "miss", kvNat out "mix" with
+      | some l, some m, some x =>
+        if l > 0 then s!"VIOL contested-service-routed-to-later-claimant: ({l}) {first}"
+        else if m > 0 then s!"VIOL gap: contested service not routable although its owner lists it ({m}) {first}"
+        else if x > 0 then s!"VIOL mixture: ({x}) {first}"
+        else "OK nt b=stress-claim"
+      | _, _, _ => "BAD stress claim output"
     else "BAD stress mode"
 
 def handle : Handler
@@ -356,7 +387,7 @@ def handle : Handler
       match st.viol with
       | some why => s!"VIOL {why}"
       | none =>
-        match replay (genProgs svc) svc st.issued rounds 0 [{ s := init }] with
+        match replay (replayProgs svc) svc st.issued rounds 0 [{ s := init }] with
         | some why => s!"DIFF model-rejects-trace {why}"
         | none => s!"OK{tags}"
   | _, _ => "BAD c11 line"
